@@ -10,6 +10,7 @@
 
 #define BOOST_BIND_GLOBAL_PLACEHOLDERS
 #include <boost/python.hpp>
+#include <stdexcept>
 #include <boost/operators.hpp>
 #include <boost/shared_array.hpp>
 #include <boost/any.hpp>
@@ -437,8 +438,9 @@ class FixedArray2D
     IMATH_NAMESPACE::Vec2<size_t> match_dimension(const FixedArray2D<T2> &a1) const
     {
         if (len() != a1.len()) {
-            PyErr_SetString(PyExc_IndexError, "Dimensions of source do not match destination");
-            boost::python::throw_error_already_set();
+            // Thrown as a C++ exception (translated to IndexError), not set
+            // with PyErr_SetString: some callers have released the GIL.
+            throw std::out_of_range("Dimensions of source do not match destination");
         }
         return len();
     }
